@@ -93,11 +93,22 @@ func runC14(c *core.Ctx, r *core.Result) {
 	if (c.Only == "" && c.Shard == 0) || strings.HasPrefix(c.Only, "all-assets/") {
 		c14AllAssets(c, r)
 	}
-	stages := []int{drive.StV20, drive.StV20Dev, drive.StV202, drive.StPIP10}
+	stages := []int{drive.StV20, drive.StV20Dev, drive.StV202, drive.StPIP10, -1}
 	idx := 0
 	for _, st := range stages {
-		era := drive.EraStage(st)
-		for _, sc := range c14Scenarios(era, c.Thorough()) {
+		var era drive.Era
+		if st == -1 {
+			// 2.0 itself activates ON the first snapshot height: that block already takes a snapshot, the next one pays
+			era = drive.EraStage(drive.StV4)
+			era.V20 = 432
+			era.Name = "v4>2.0-at-the-first-snapshot-height"
+		} else {
+			era = drive.EraStage(st)
+		}
+		for si, sc := range c14Scenarios(era, c.Thorough()) {
+			if st == -1 && (si%7 != 0 || sc.zeroEUR || sc.zeroUSD432 || !(strings.HasPrefix(sc.name, "probe/") || sc.name == "tie")) {
+				continue // a sample of the probe scenarios is enough here: what is probed is the schedule, not the valuation
+			}
 			idx++
 			if !c.Mine(idx) && c.Only == "" {
 				continue
@@ -131,7 +142,12 @@ func c14One(c *core.Ctx, r *core.Result, era drive.Era, sc c14Scenario, key stri
 		return s
 	}
 	FundStd(b) // 289..292: A holds PEG, pUSD, pEUR
-	b.Add(g(drive.BlockSpec{TX: []fake.Entry{b.Tx(KA, kit.Conversion(A, "PEG", 4000e8, "pXBT"), kit.Conversion(A, "PEG", 20000e8, "pUSD"), kit.Conversion(A, "PEG", 5000e8, "pEUR"))}}))
+	if b.Next() < era.V20 {
+		// before 2.0 A's funds are pFCT (burnt FCT), not mined PEG
+		b.Add(g(drive.BlockSpec{TX: []fake.Entry{b.Tx(KA, kit.Conversion(A, "pFCT", 1500e8, "pUSD"), kit.Conversion(A, "pFCT", 100e8, "pEUR"))}}))
+	} else {
+		b.Add(g(drive.BlockSpec{TX: []fake.Entry{b.Tx(KA, kit.Conversion(A, "PEG", 4000e8, "pXBT"), kit.Conversion(A, "PEG", 20000e8, "pUSD"), kit.Conversion(A, "PEG", 5000e8, "pEUR"))}}))
+	}
 	b.Add(g(drive.BlockSpec{}))
 	// 295: fund the holders (not the "late" ones)
 	fund := func(hs []c14Holder, late bool) []fake.Entry {
